@@ -17,6 +17,16 @@ Theorem c16_per_table_independent : forall pre log s tb,
   srun log (sinit pre) = Some s -> table_map s tb = spec_table tb log.
 Proof. exact per_table_independent. Qed.
 
+(* the same when the tables exist already (what the harness replays): committed contents, then the own stream *)
+Theorem c16_per_table_independent_from : forall pre tabs log s tb,
+  srun log (sinit_tables pre tabs) = Some s ->
+  table_map s tb = spec_table_from (table_map (sinit_tables pre tabs) tb) tb log.
+Proof. exact per_table_independent_from. Qed.
+
+Theorem c16_savepoint_tracking_consistent_from : forall pre tabs log s,
+  srun log (sinit_tables pre tabs) = Some s -> s_tracking s = false -> s_valid s = [] /\ s_dirty s = true.
+Proof. exact savepoint_tracking_consistent_from. Qed.
+
 (* no page in two tables, no page twice in one *)
 Theorem c16_no_shared_page : forall pre log s,
   srun log (sinit pre) = Some s ->
